@@ -31,7 +31,7 @@ SOFFICE_SH = r"""#!/bin/sh
 # scripted stand-in for the LibreOffice executable (simulation only)
 BIN=$(dirname "$0")
 CTL="$BIN/../ctl"
-V_MODE=ok; C_MODE=ok; RES=0; SEQ=0
+V_MODE=ok; C_MODE=ok; RES=0; SEQ=0; DIE=exit1
 [ -f "$CTL/behaviour" ] && . "$CTL/behaviour"
 if [ "$1" = "--version" ]; then
   echo "VERSION $V_MODE" >> "$CTL/log"
@@ -69,11 +69,19 @@ res() {
     fi
   fi
 }
+die() {
+  # how a failing converter process ends: plain exit codes, shell-style 128+signal, or a real signal
+  case "$DIE" in
+    exit1) exit 1;; exit77) exit 77;; exit139) exit 139;; exit255) exit 255;;
+    segv) kill -SEGV $$; sleep 1; exit 139;; kill) kill -KILL $$; sleep 1; exit 137;;
+  esac
+  exit 1
+}
 case "$C_MODE" in
   ok) full; res;;
-  fail_before) echo "conversion failed" >&2; exit 1;;
-  fail_after_partial) printf 'PARTIAL' > "$out"; echo "died" >&2; exit 77;;
-  fail_after_complete) full; res; echo "died late" >&2; exit 1;;
+  fail_before) echo "conversion failed" >&2; die;;
+  fail_after_partial) printf 'PARTIAL' > "$out"; echo "died" >&2; die;;
+  fail_after_complete) full; res; echo "died late" >&2; die;;
   no_output) :;;
   wrong_name) printf 'OTHER-%s' "$SEQ" > "$outdir/other.$fmt";;
   stray) full; res; : > "$outdir/.~lock.$stem.$fmt#"; : > "$(dirname "$input")/.~lock.$base#";;
@@ -83,6 +91,7 @@ exit 0
 
 V_MODES_FAIL = ["fail", "garbage", "old", "missing"]
 C_MODES_FAIL = ["fail_before", "fail_after_partial", "fail_after_complete", "no_output", "wrong_name", "vanish"]
+DIE_MODES = ["exit1", "exit77", "exit139", "exit255", "segv", "kill"]
 DUCK_BAD = ["ret_str", "ret_list", "ret_none", "ret_missing_path", "raise_after_output", "raise_before_output"]
 E_EXCS = ["InjectedFault", "MemoryError", "KeyboardInterrupt", "OSError"]
 
@@ -134,7 +143,7 @@ def gen_fault(rng, kind: str, allow_e3_figure: bool, allow_e3_group: bool) -> di
     if r2 < 0.25:
         return {"kind": "V", "mode": rng.choice(V_MODES_FAIL)}
     if r2 < 0.7:
-        return {"kind": "P", "mode": rng.choice(C_MODES_FAIL)}
+        return {"kind": "P", "mode": rng.choice(C_MODES_FAIL), "die": rng.choice(DIE_MODES)}
     return {"kind": "M", "mode": rng.choice(DUCK_BAD)}
 
 
@@ -214,10 +223,10 @@ class Sandbox:
         os.chmod(p, 0o755)
         self.soffice = p
 
-    def behaviour(self, v_mode="ok", c_mode="ok", res=0):
+    def behaviour(self, v_mode="ok", c_mode="ok", res=0, die="exit1"):
         self.seq += 1
         with open(os.path.join(self.ctl, "behaviour"), "w") as fh:
-            fh.write(f"V_MODE={v_mode}\nC_MODE={c_mode}\nRES={res}\nSEQ={self.seq}\n")
+            fh.write(f"V_MODE={v_mode}\nC_MODE={c_mode}\nRES={res}\nSEQ={self.seq}\nDIE={die}\n")
         open(os.path.join(self.ctl, "log"), "w").close()
 
     def log(self) -> list:
@@ -545,7 +554,7 @@ def _exec_faults(plan, sb, rtflite, conv_mod, arg) -> dict:
                 v_mode = "vanish"
         if op.get("stray") and c_mode == "ok":
             c_mode = "stray"
-        sb.behaviour(v_mode=v_mode, c_mode=c_mode, res=op.get("res", 0))
+        sb.behaviour(v_mode=v_mode, c_mode=c_mode, res=op.get("res", 0), die=fault.get("die", "exit1"))
         kwargs = {}
         duck = None
         restore_path = None
@@ -1129,7 +1138,7 @@ def summarise(plan, res, idx) -> dict:
 # --------------------------------------------------------------------------
 
 
-def site_docs(root: int, n: int) -> list:
+def site_docs(root: int, n: int, calib=None) -> list:
     rng = core.rng_for(root, PROP, "site-docs")
     want = ["single", "multi", "figure", "single", "single", "multi"]
     docs = []
@@ -1149,6 +1158,8 @@ def site_docs(root: int, n: int) -> list:
                 continue
             if sum(len(f["cols"][0][2]) for f in r.get("dfs", [])) > 12:
                 continue
+            if calib is not None and not all(calib.get(r)["ok"].get(k) for k in KINDS):
+                continue  # must export fault-free, otherwise there is nothing to place faults in
             docs.append(r)
             break
     return docs
@@ -1195,6 +1206,8 @@ def matrix_jobs(root: int, docs: list) -> list:
     rng = core.rng_for(root, PROP, "matrix")
     faults = ([{"kind": "T", "mode": "enospc", "n": 1}] + [{"kind": "V", "mode": m} for m in V_MODES_FAIL]
               + [{"kind": "P", "mode": m} for m in C_MODES_FAIL]
+              + [{"kind": "P", "mode": m, "die": d} for m in ("fail_before", "fail_after_partial", "fail_after_complete")
+                 for d in DIE_MODES[1:]]
               + [{"kind": "M", "mode": m} for m in DUCK_BAD])
     states = [{"pre": "absent", "missing_parents": 0}, {"pre": "file", "missing_parents": 0},
               {"pre": "absent", "missing_parents": 2}, {"pre": "earlier", "missing_parents": 0}]
@@ -1235,7 +1248,7 @@ def main(opts) -> int:
     root = opts.seed
     base = tempfile.mkdtemp(prefix="vc18main_")
     calib = Calib(base)
-    docs = site_docs(root, tier["site_docs"])
+    docs = site_docs(root, tier["site_docs"], calib)
     sjobs, total_sites = site_jobs(root, docs, calib, tier["instances"])
     mjobs = matrix_jobs(root, docs)
     jobs = sjobs + mjobs + [{"root": root, "idx": i} for i in range(runs)]
